@@ -468,6 +468,12 @@ func NewNibiruApp(
 		if err := ibcwasmkeeper.InitializePinnedCodes(app.BaseApp.NewUncachedContext(true, cmtproto.Header{}), app.appCodec); err != nil {
 			cmtos.Exit(fmt.Sprintf("failed to initialize pinned codes %s", err))
 		}
+
+		// Regenerate the in-memory capability store now rather than in the first
+		// BeginBlock after a restart: that one-off initialisation consumes gas on
+		// the block's context, so a restarted node reported another GasUsed than
+		// its peers for transactions rejected before the ante handler.
+		app.capabilityKeeper.InitMemStore(app.BaseApp.NewUncachedContext(true, cmtproto.Header{}))
 	}
 
 	return app
